@@ -14,9 +14,16 @@ INT_EDGES = [0, 1, -1, 2, 127, 128, 255, 256, 32767, 32768, 65535, 65536, 2 ** 1
              -2 ** 63 - 1, 2 ** 64, 10 ** 30, -10 ** 30, 2 ** 200 + 12345]
 
 
+# integers of more than 4096 15-bit marshal digits (writers that work in blocks, hosts with an int->str digit limit);
+# canonical form is hexadecimal for these (refworker._istr)
+HUGE_INTS = ["0x1" + "0" * 15360, "0x1" + "0" * 15359 + "1", "-0x1" + "0" * 17500, "0x8" + "0" * 15363 + "7", "0x1" + "0" * 30720,
+             "0x" + "f" * 15360, "0x7fff" + "0" * 15360 + "7fff"]
+
+
 def ints():
-    return st.one_of(st.sampled_from(INT_EDGES), st.integers(-300, 300),
+    base = st.one_of(st.sampled_from(INT_EDGES), st.integers(-300, 300),
                      st.integers(-2 ** 70, 2 ** 70)).map(lambda n: ["i", str(n)])
+    return st.integers(0, 59).flatmap(lambda k: st.sampled_from(HUGE_INTS).map(lambda s_: ["i", s_]) if k == 7 else base)
 
 
 def fbits(f):
@@ -83,13 +90,28 @@ def _big(kind_codes, inner):
         lambda p: ["#", p[0], p[1], p[2], p[3]])
 
 
+def _has_nan(x):
+    if not isinstance(x, list) or not x:
+        return False
+    if x[0] == "f" and isinstance(x[1], str) and len(x[1]) == 16:
+        bits = int(x[1], 16)
+        return (bits >> 52) & 0x7FF == 0x7FF and bits & ((1 << 52) - 1) != 0
+    if x[0] == "c":
+        return any(_has_nan(["f", p]) for p in x[1:3])
+    if x[0] in ("T", "Z"):
+        return any(_has_nan(e) for e in x[1])
+    return False
+
+
 def _dedupe(items):
+    """set elements: equal elements once - except those holding a NaN, which never equal anything (two NaN objects
+    with the same bits are two elements of a set)"""
     import json
     seen = set()
     out = []
     for x in items:
         k = json.dumps(x, sort_keys=True)
-        if k not in seen:
+        if k not in seen or _has_nan(x):
             seen.add(k)
             out.append(x)
     return out
